@@ -120,3 +120,133 @@ package shp
 //@     invariant [q2] (forall a int :: 0 <= a && a < #1 ==> fresh(parts[a]) && !sameObj(parts[a], parts[#1]) && ringCopied(parts[a], g[a]))
 //@     decreases j + 1
 //@   assert [rings_copied_and_closed] `p := shp.Polygon(*shp.NewPolyLine(parts))` len(parts) == len(g) && (forall a int :: 0 <= a && a < len(g) ==> ringCopied(parts[a], g[a]))
+
+// ---- dispatchers: which converter a geometry / shape type is handed to
+
+//@ func geom2Shp
+//@   prop C16
+//@   mode fp
+//@   opt trustpre=geom
+//@   requires [fits_int32] typeof(g) == geom.MultiPoint ==> len(g.(geom.MultiPoint)) <= 2147483647
+//@   requires [box] typeof(g) == *geom.Bounds ==> g.(*geom.Bounds) != nil
+//@   ensures [null] typeof(g) == nil ==> result1 == nil && typeof(result0) == *shp.Null
+//@   ensures [point] typeof(g) == geom.Point ==> result1 == nil && typeof(result0) == *shp.Point && result0.(*shp.Point) != nil && samePt(g.(geom.Point), *result0.(*shp.Point))
+//@   ensures [polygon] typeof(g) == geom.Polygon || typeof(g) == *geom.Bounds ==> result1 == nil && typeof(result0) == *shp.Polygon
+//@   ensures [lines] typeof(g) == geom.LineString || typeof(g) == geom.MultiLineString ==> result1 == nil && typeof(result0) == *shp.PolyLine
+//@   ensures [multipoint] typeof(g) == geom.MultiPoint ==> result1 == nil && typeof(result0) == *shp.MultiPoint && result0.(*shp.MultiPoint) != nil && len(result0.(*shp.MultiPoint).Points) == len(g.(geom.MultiPoint)) && (forall k int :: 0 <= k && k < len(g.(geom.MultiPoint)) ==> samePt(g.(geom.MultiPoint)[k], result0.(*shp.MultiPoint).Points[k]))
+//@   ensures [unsupported] typeof(g) != nil && typeof(g) != geom.Point && typeof(g) != geom.Polygon && typeof(g) != *geom.Bounds && typeof(g) != geom.LineString && typeof(g) != geom.MultiLineString && typeof(g) != geom.MultiPoint ==> result1 != nil && typeof(result0) == nil
+
+// M/Z variants: the measure and height arrays are dropped; x/y as in the plain variants.
+//@ func pointM2geom
+//@   prop C16
+//@   mode fp
+//@   ensures [same] typeof(result) == geom.Point && biteq(result.(geom.Point).X, s.X) && biteq(result.(geom.Point).Y, s.Y)
+//@   modifies nothing
+
+//@ func pointZ2geom
+//@   prop C16
+//@   mode fp
+//@   ensures [same] typeof(result) == geom.Point && biteq(result.(geom.Point).X, s.X) && biteq(result.(geom.Point).Y, s.Y)
+//@   modifies nothing
+
+//@ func multiPointM2geom
+//@   prop C16
+//@   mode fp
+//@   ensures [same] typeof(result) == geom.MultiPoint && len(result.(geom.MultiPoint)) == len(s.Points) && (forall k int :: 0 <= k && k < len(s.Points) ==> samePt(result.(geom.MultiPoint)[k], s.Points[k]))
+//@   modifies nothing
+//@   loop 1 `for i, p := range s.Points`
+//@     invariant [basic] fresh(mp) && len(mp) == len(s.Points) && #1 <= len(s.Points)
+//@     invariant [q1] (forall k int :: 0 <= k && k < #1 ==> samePt(mp[k], s.Points[k]))
+
+//@ func multiPointZ2geom
+//@   prop C16
+//@   mode fp
+//@   ensures [same] typeof(result) == geom.MultiPoint && len(result.(geom.MultiPoint)) == len(s.Points) && (forall k int :: 0 <= k && k < len(s.Points) ==> samePt(result.(geom.MultiPoint)[k], s.Points[k]))
+//@   modifies nothing
+//@   loop 1 `for i, p := range s.Points`
+//@     invariant [basic] fresh(mp) && len(mp) == len(s.Points) && #1 <= len(s.Points)
+//@     invariant [q1] (forall k int :: 0 <= k && k < #1 ==> samePt(mp[k], s.Points[k]))
+
+//@ func polyLineM2geom
+//@   prop C16
+//@   mode fp
+//@   requires [parts] partsOK(s.Parts, len(s.Points))
+//@   ensures [parts] typeof(result) == geom.MultiLineString && len(result.(geom.MultiLineString)) == len(s.Parts)
+//@   ensures [points] forall a int :: 0 <= a && a < len(s.Parts) ==> partIs(result.(geom.MultiLineString)[a], s.Points, s.Parts[a], partEnd(s.Parts, len(s.Points), a))
+//@   modifies nothing
+//@   loop 1 `for i := 0; i < len(s.Parts); i++`
+//@     invariant [basic] 0 <= i && i <= len(s.Parts) && fresh(pl) && len(pl) == len(s.Parts)
+//@     invariant [prev_fresh] forall a int :: 0 <= a && a < i ==> fresh(pl[a])
+//@     invariant [q1] forall a int :: 0 <= a && a < i ==> partIs(pl[a], s.Points, s.Parts[a], partEnd(s.Parts, len(s.Points), a))
+//@     using mention(partIs(pl[i], s.Points, s.Parts[i], partEnd(s.Parts, len(s.Points), i)))
+//@     decreases len(s.Parts) - i
+//@   loop 2 `for j := start; j < end; j++`
+//@     invariant [basic] start <= j && j <= end && start == s.Parts[i] && end == partEnd(s.Parts, len(s.Points), i) && 0 <= i && i < len(s.Parts) && fresh(pl) && len(pl) == len(s.Parts) && fresh(pl[i]) && len(pl[i]) == end - start
+//@     invariant [q1] (forall b int :: start <= b && b < j ==> samePt(pl[i][b - start], s.Points[b]))
+//@     invariant [q2] (forall a int :: 0 <= a && a < i ==> fresh(pl[a]) && !sameObj(pl[a], pl[i]) && partIs(pl[a], s.Points, s.Parts[a], partEnd(s.Parts, len(s.Points), a)))
+//@     decreases end - j
+
+//@ func polyLineZ2geom
+//@   prop C16
+//@   mode fp
+//@   requires [parts] partsOK(s.Parts, len(s.Points))
+//@   ensures [parts] typeof(result) == geom.MultiLineString && len(result.(geom.MultiLineString)) == len(s.Parts)
+//@   ensures [points] forall a int :: 0 <= a && a < len(s.Parts) ==> partIs(result.(geom.MultiLineString)[a], s.Points, s.Parts[a], partEnd(s.Parts, len(s.Points), a))
+//@   modifies nothing
+//@   loop 1 `for i := 0; i < len(s.Parts); i++`
+//@     invariant [basic] 0 <= i && i <= len(s.Parts) && fresh(pl) && len(pl) == len(s.Parts)
+//@     invariant [prev_fresh] forall a int :: 0 <= a && a < i ==> fresh(pl[a])
+//@     invariant [q1] forall a int :: 0 <= a && a < i ==> partIs(pl[a], s.Points, s.Parts[a], partEnd(s.Parts, len(s.Points), a))
+//@     using mention(partIs(pl[i], s.Points, s.Parts[i], partEnd(s.Parts, len(s.Points), i)))
+//@     decreases len(s.Parts) - i
+//@   loop 2 `for j := start; j < end; j++`
+//@     invariant [basic] start <= j && j <= end && start == s.Parts[i] && end == partEnd(s.Parts, len(s.Points), i) && 0 <= i && i < len(s.Parts) && fresh(pl) && len(pl) == len(s.Parts) && fresh(pl[i]) && len(pl[i]) == end - start
+//@     invariant [q1] (forall b int :: start <= b && b < j ==> samePt(pl[i][b - start], s.Points[b]))
+//@     invariant [q2] (forall a int :: 0 <= a && a < i ==> fresh(pl[a]) && !sameObj(pl[a], pl[i]) && partIs(pl[a], s.Points, s.Parts[a], partEnd(s.Parts, len(s.Points), a)))
+//@     decreases end - j
+
+//@ func shp2Geom
+//@   prop C16
+//@   mode fp
+//@   requires [nonnil_shape] typeof(s) != nil && (typeof(s) == *shp.Point ==> s.(*shp.Point) != nil) && (typeof(s) == *shp.PointM ==> s.(*shp.PointM) != nil) && (typeof(s) == *shp.PointZ ==> s.(*shp.PointZ) != nil) && (typeof(s) == *shp.Polygon ==> s.(*shp.Polygon) != nil) && (typeof(s) == *shp.PolygonM ==> s.(*shp.PolygonM) != nil) && (typeof(s) == *shp.PolygonZ ==> s.(*shp.PolygonZ) != nil) && (typeof(s) == *shp.PolyLine ==> s.(*shp.PolyLine) != nil) && (typeof(s) == *shp.PolyLineM ==> s.(*shp.PolyLineM) != nil) && (typeof(s) == *shp.PolyLineZ ==> s.(*shp.PolyLineZ) != nil) && (typeof(s) == *shp.MultiPoint ==> s.(*shp.MultiPoint) != nil) && (typeof(s) == *shp.MultiPointM ==> s.(*shp.MultiPointM) != nil) && (typeof(s) == *shp.MultiPointZ ==> s.(*shp.MultiPointZ) != nil) && (typeof(s) == *shp.Null ==> s.(*shp.Null) != nil)
+//@   requires [parts] (typeof(s) == *shp.Polygon ==> partsOK(s.(*shp.Polygon).Parts, len(s.(*shp.Polygon).Points))) && (typeof(s) == *shp.PolygonM ==> partsOK(s.(*shp.PolygonM).Parts, len(s.(*shp.PolygonM).Points))) && (typeof(s) == *shp.PolygonZ ==> partsOK(s.(*shp.PolygonZ).Parts, len(s.(*shp.PolygonZ).Points))) && (typeof(s) == *shp.PolyLine ==> partsOK(s.(*shp.PolyLine).Parts, len(s.(*shp.PolyLine).Points))) && (typeof(s) == *shp.PolyLineM ==> partsOK(s.(*shp.PolyLineM).Parts, len(s.(*shp.PolyLineM).Points))) && (typeof(s) == *shp.PolyLineZ ==> partsOK(s.(*shp.PolyLineZ).Parts, len(s.(*shp.PolyLineZ).Points)))
+//@   requires [no_reorientation] !FixOrientation
+//@   ensures [index] result0 == n
+//@   ensures [point] typeof(s) == *shp.Point ==> result2 == nil && typeof(result1) == geom.Point && samePt(result1.(geom.Point), *s.(*shp.Point))
+//@   ensures [multipoint] typeof(s) == *shp.MultiPoint ==> result2 == nil && typeof(result1) == geom.MultiPoint && len(result1.(geom.MultiPoint)) == len(s.(*shp.MultiPoint).Points) && (forall k int :: 0 <= k && k < len(s.(*shp.MultiPoint).Points) ==> samePt(result1.(geom.MultiPoint)[k], s.(*shp.MultiPoint).Points[k]))
+//@   ensures [polyline] typeof(s) == *shp.PolyLine ==> result2 == nil && typeof(result1) == geom.MultiLineString && len(result1.(geom.MultiLineString)) == len(s.(*shp.PolyLine).Parts) && (forall a int :: 0 <= a && a < len(s.(*shp.PolyLine).Parts) ==> partIs(result1.(geom.MultiLineString)[a], s.(*shp.PolyLine).Points, s.(*shp.PolyLine).Parts[a], partEnd(s.(*shp.PolyLine).Parts, len(s.(*shp.PolyLine).Points), a)))
+//@   ensures [polygon] typeof(s) == *shp.Polygon ==> result2 == nil && typeof(result1) == geom.Polygon && len(result1.(geom.Polygon)) == len(s.(*shp.Polygon).Parts) && (forall a int :: 0 <= a && a < len(s.(*shp.Polygon).Parts) ==> partIs(result1.(geom.Polygon)[a], s.(*shp.Polygon).Points, s.(*shp.Polygon).Parts[a], partEnd(s.(*shp.Polygon).Parts, len(s.(*shp.Polygon).Points), a)))
+//@   ensures [null] typeof(s) == *shp.Null ==> result2 == nil && typeof(result1) == nil
+//@   modifies nothing
+
+// polygonM2geom / polygonZ2geom re-orient unconditionally (op.FixOrientation), so only the
+// shape of the result is stated; the encoder never writes these shape types.
+//@ func polygonM2geom
+//@   prop C16
+//@   mode fp
+//@   requires [parts] partsOK(s.Parts, len(s.Points))
+//@   ensures [rings] typeof(result) == geom.Polygon && len(result.(geom.Polygon)) == len(s.Parts) && (forall a int :: 0 <= a && a < len(s.Parts) ==> len(result.(geom.Polygon)[a]) == partEnd(s.Parts, len(s.Points), a) - s.Parts[a])
+//@   modifies nothing
+//@   loop 1 `for i := 0; i < len(s.Parts); i++`
+//@     invariant [basic] 0 <= i && i <= len(s.Parts) && fresh(pg) && len(pg) == len(s.Parts)
+//@     invariant [prev] forall a int :: 0 <= a && a < i ==> fresh(pg[a]) && len(pg[a]) == partEnd(s.Parts, len(s.Points), a) - s.Parts[a]
+//@     decreases len(s.Parts) - i
+//@   loop 2 `for j := end - 1; j >= start; j--`
+//@     invariant [basic] start - 1 <= j && j <= end - 1 && start == s.Parts[i] && end == partEnd(s.Parts, len(s.Points), i) && 0 <= i && i < len(s.Parts) && fresh(pg) && len(pg) == len(s.Parts) && fresh(pg[i]) && len(pg[i]) == end - start
+//@     invariant [prev] forall a int :: 0 <= a && a < i ==> fresh(pg[a]) && len(pg[a]) == partEnd(s.Parts, len(s.Points), a) - s.Parts[a]
+//@     decreases j - start + 1
+
+//@ func polygonZ2geom
+//@   prop C16
+//@   mode fp
+//@   requires [parts] partsOK(s.Parts, len(s.Points))
+//@   ensures [rings] typeof(result) == geom.Polygon && len(result.(geom.Polygon)) == len(s.Parts) && (forall a int :: 0 <= a && a < len(s.Parts) ==> len(result.(geom.Polygon)[a]) == partEnd(s.Parts, len(s.Points), a) - s.Parts[a])
+//@   modifies nothing
+//@   loop 1 `for i := 0; i < len(s.Parts); i++`
+//@     invariant [basic] 0 <= i && i <= len(s.Parts) && fresh(pg) && len(pg) == len(s.Parts)
+//@     invariant [prev] forall a int :: 0 <= a && a < i ==> fresh(pg[a]) && len(pg[a]) == partEnd(s.Parts, len(s.Points), a) - s.Parts[a]
+//@     decreases len(s.Parts) - i
+//@   loop 2 `for j := end - 1; j >= start; j--`
+//@     invariant [basic] start - 1 <= j && j <= end - 1 && start == s.Parts[i] && end == partEnd(s.Parts, len(s.Points), i) && 0 <= i && i < len(s.Parts) && fresh(pg) && len(pg) == len(s.Parts) && fresh(pg[i]) && len(pg[i]) == end - start
+//@     invariant [prev] forall a int :: 0 <= a && a < i ==> fresh(pg[a]) && len(pg[a]) == partEnd(s.Parts, len(s.Points), a) - s.Parts[a]
+//@     decreases j - start + 1
